@@ -194,6 +194,7 @@ class Tracer:
         self.kill_after = None
         self.after = 0
         self.fault_call = None
+        self.inner_fault = False
         self.active = False
         self.chunks = []
 
@@ -237,6 +238,11 @@ class Tracer:
             self.trace.pop()
             os._exit(77)
         if self.mode == "fault":
+            if call[0] == "rmtree":
+                # a failure INSIDE shutil.rmtree (the unlink / rmdir of an entry), where rmtree's own error handling
+                # (ignore_errors / onexc) sees it — not an exception out of the audit event at the top of the function
+                self.inner_fault = True
+                return
             # OSError(errno, …) builds the matching subclass (PermissionError, FileExistsError, FileNotFoundError, IsADirectoryError, …)
             raise OSError(getattr(errno, self.errno_name, errno.EIO), "injected fault")
         if self.mode == "fmtfail":
@@ -255,8 +261,13 @@ class Tracer:
             self.tmpdirs.append(p)
             return
         if self.swallow_until_rmdir is not None:
-            if name == "os.rmdir" and os.path.normpath(str(args[0])) == self.swallow_until_rmdir:
+            top = name == "os.rmdir" and os.path.normpath(str(args[0])) == self.swallow_until_rmdir
+            if top:
                 self.swallow_until_rmdir = None
+            if self.inner_fault and name in ("os.remove", "os.rmdir"):
+                if not self.persist or top:
+                    self.inner_fault = False
+                raise OSError(getattr(errno, self.errno_name, errno.EIO), "injected fault (inside rmtree)")
             return
         if name == "open":
             path, mode = args[0], args[1]
